@@ -65,15 +65,25 @@ def sweep(case, prep, orders):
 
 def first_difference(runs):
     """(order, field) of the first pass whose Result differs from the sequential one"""
-    base = wf_run.result_view(runs[0][1])
+    base = wf_run.result_view_full(runs[0][1])
     for o, obs in runs[1:]:
-        v = wf_run.result_view(obs)
+        v = wf_run.result_view_full(obs)
         if v != base:
-            return o, [k for k in v if v[k] != base[k]]
+            keys = [k for k in v if v[k] != base[k]]
+            if keys == ["texts"]:       # say which text
+                a, b = base["texts"] or {}, v["texts"] or {}
+                for k in ("overall", "stateErrors"):
+                    if a.get(k) != b.get(k):
+                        keys.append(f"{k}: {a.get(k)!r} vs {b.get(k)!r}")
+                for x, y in zip(a.get("conditions") or [], b.get("conditions") or []):
+                    if x != y:
+                        keys.append(f"condition {x[0]}: {x[1:]!r} vs {y[1:]!r}")
+                        break
+            return o, keys
     return None
 
 
-def order_oracle(case, runs, limit):
+def order_oracle(case, runs, limit, prep=None):
     """C02's clauses on the implementation; list of (order, what)"""
     bad = []
     d = first_difference(runs)
@@ -85,7 +95,7 @@ def order_oracle(case, runs, limit):
         elif obs["elapsed"] >= limit:
             bad.append((o, f"pass took {obs['elapsed']} virtual seconds (≥ step time-out) although every call answers in time"))
         else:
-            for l, what in c01.oracle(case, obs):
+            for l, what in c01.oracle(case, obs, prep):
                 bad.append((o, f"step {l}: {what}"))
         if bad:
             break
@@ -125,7 +135,7 @@ def check_case(ck, drv, r, case, tier, tag, prep=None, base=None):
     ck.sample({"case": c01.compact(case), "units": units, "orders": orders[:3],
                "schedules": sorted(schedules)[:3]}, limit=3)
     limit = wf_run.step_timeout()
-    bad = order_oracle(case, runs, limit)
+    bad = order_oracle(case, runs, limit, prep)
     if bad:
         o, what = bad[0]
 
@@ -135,13 +145,13 @@ def check_case(ck, drv, r, case, tier, tag, prep=None, base=None):
                 return False
             b = wf_run.run_prepared(p)
             os_ = [x for x in ([o] if o else []) if set(x) == set(b["units"])] or orders_for(rng("shrink"), b["units"], "quick")[0]
-            return bool(order_oracle(c, [(None, b)] + [(x, wf_run.run_prepared(p, order=x)) for x in os_], limit))
+            return bool(order_oracle(c, [(None, b)] + [(x, wf_run.run_prepared(p, order=x)) for x in os_], limit, p))
         small = c01.shrink(case, fails) if len(ck.violations) < 3 else case
         if small is not case:       # name an order of the *small* case under which it fails
             try:
                 p2, b2 = prepare_and_base(small)
                 os2 = ([o] if o and set(o) == set(b2["units"]) else []) + orders_for(rng("shrink"), b2["units"], "thorough")[0][:120]
-                bad2 = order_oracle(small, [(None, b2)] + [(x, wf_run.run_prepared(p2, order=x)) for x in os2], limit)
+                bad2 = order_oracle(small, [(None, b2)] + [(x, wf_run.run_prepared(p2, order=x)) for x in os2], limit, p2)
                 if bad2:
                     o, what = bad2[0]
             except Infra:
@@ -213,6 +223,10 @@ def run(tier: str) -> int:
                 if len(base["units"]) >= 2 or (attempt == 0 and r.random() < 0.1):
                     break
             check_case(ck, drv, r, case, tier, "random", prep, base)
+        # targeted: ≥ 2 non-Ok dependencies finishing on API calls in every order; conditions on the dependents
+        rr = rng("c02-race")
+        for i in range(25 if tier == "quick" else 250):
+            check_case(ck, drv, rr, gen_wf.gen_race_case(rr), tier, "racing-non-ok-dependencies")
     except Infra as e:
         if "driver" not in str(e):
             raise
@@ -236,7 +250,7 @@ def run(tier: str) -> int:
             orders = orders_for(rr, b["units"], "thorough")[0]
             runs = [(None, b)] + [(o, wf_run.run_prepared(p, order=o)) for o in orders[:60]]
             ck.evaluated(len(runs))
-            bad = order_oracle(c, runs, limit)
+            bad = order_oracle(c, runs, limit, p)
             if bad:
                 ck.violate({"case": c01.compact(c), "order": bad[0][0]}, bad[0][1])
                 return
@@ -262,7 +276,7 @@ def replay(path: str) -> int:
         orders = [order] if order and set(order) == set(base["units"]) else []
         orders += orders_for(rng("replay"), base["units"], "thorough")[0][:120]
         runs = [(None, base)] + [(o, wf_run.run_prepared(prep, order=o)) for o in orders]
-        bad = order_oracle(case, runs, limit)
+        bad = order_oracle(case, runs, limit, prep)
         print("replay:", json.dumps({"steps": [s["label"] for s in gen_wf.main_steps(case)], "units": base["units"]}),
               "::", bad[:1])
         rc = rc or (1 if bad else 0)
